@@ -160,6 +160,11 @@ def Agg.holds (M : Interp) (gl : List Nat) (e : Env) (a : Agg) : Prop :=
   ∃ L : List (List Val), L.Nodup ∧ (∀ t, t ∈ L ↔ a.tupleAt M gl e t) ∧
     ∃ b, a.bound.eval e = .num b ∧ aggCmp a.fn a.op (a.fn.value L) b = true
 
+/-- the comparison holds for the aggregate's value, whatever list enumerates its distinct tuples -/
+def Agg.always (M : Interp) (gl : List Nat) (e : Env) (a : Agg) : Prop :=
+  ∀ L : List (List Val), L.Nodup → (∀ t, t ∈ L ↔ a.tupleAt M gl e t) →
+    ∀ b, a.bound.eval e = .num b → aggCmp a.fn a.op (a.fn.value L) b = true
+
 structure Elem where
   atom : Atom
   cond : List SLit
